@@ -6,6 +6,7 @@ import (
 	"sort"
 	"strings"
 	"testing"
+	"time"
 
 	"gitee.com/xuesongtao/protoc-go-valid/valid"
 	"pgregory.net/rapid"
@@ -34,6 +35,11 @@ type LRUCase struct {
 	Ops      []LRUOp `json:"ops"`
 }
 
+type structKey2 struct {
+	A interface{}
+	B string
+}
+
 type structKey struct {
 	A string
 	B int
@@ -50,6 +56,27 @@ func lruKey(kind, k string) interface{} {
 		return n
 	case "struct":
 		return structKey{A: k, B: len(k)}
+	case "printalike":
+		// distinct keys of one comparable type that PRINT alike (%v): the first two keys of the alphabet
+		switch k {
+		case "a", "k0":
+			return [2]string{"a b", "c"}
+		case "b", "k1":
+			return [2]string{"a", "b c"}
+		}
+		return [2]string{k, ""}
+	case "printalike-struct":
+		switch k {
+		case "a", "k0":
+			return structKey2{A: "acme corp", B: "eu"}
+		case "b", "k1":
+			return structKey2{A: "acme", B: "corp eu"}
+		case "c", "k2":
+			return structKey2{A: 1, B: "x"}
+		case "k3":
+			return structKey2{A: "1", B: "x"}
+		}
+		return structKey2{A: k, B: ""}
 	case "nilfirst":
 		// the untyped nil interface is a legal map key: the first key of the alphabet is nil
 		if k == "a" || k == "k0" {
@@ -142,6 +169,14 @@ func checkLRUCase(c LRUCase) (string, lruStats) {
 			if op.Val == 0 {
 				cache.SetDelCallBackFn(nil)
 				cbOn = false
+			} else if op.Val == 2 {
+				// a one-shot handler: it reports the removal and installs the ordinary callback from
+				// inside the callback (SetDelCallBackFn is the one method a callback can call)
+				cache.SetDelCallBackFn(func(k, v interface{}) {
+					logCb(k, v)
+					cache.SetDelCallBackFn(logCb)
+				})
+				cbOn = true
 			} else {
 				cache.SetDelCallBackFn(logCb)
 				cbOn = true
@@ -306,7 +341,7 @@ func genLRUCase(t *rapid.T, minLen int) LRUCase {
 	c := LRUCase{
 		Cap:      rapid.SampledFrom([]int{0, 1, 2, 3, 4, 8, 64, 64, 513, 600}).Draw(t, "cap"), // (513, 600: above the default size 512)
 		Callback: rapid.Bool().Draw(t, "callback"),
-		KeyKind:  rapid.SampledFrom([]string{"string", "int", "struct", "nilfirst"}).Draw(t, "keykind"),
+		KeyKind:  rapid.SampledFrom([]string{"string", "int", "struct", "nilfirst", "printalike", "printalike-struct"}).Draw(t, "keykind"),
 	}
 	nkeys := c.Cap + rapid.IntRange(1, 4).Draw(t, "extraKeys")
 	if rapid.IntRange(0, 4).Draw(t, "fewKeys") == 0 && c.Cap > 1 {
@@ -338,7 +373,7 @@ func genLRUCase(t *rapid.T, minLen int) LRUCase {
 			continue
 		}
 		if rapid.IntRange(0, 29).Draw(t, "cbSwitch") == 13 {
-			c.Ops = append(c.Ops, LRUOp{Kind: "C", Val: rapid.IntRange(0, 1).Draw(t, "cbOnOff")})
+			c.Ops = append(c.Ops, LRUOp{Kind: "C", Val: rapid.IntRange(0, 2).Draw(t, "cbOnOff")})
 			continue
 		}
 		switch rapid.IntRange(0, 9).Draw(t, "op") {
@@ -360,7 +395,10 @@ func TestC09(t *testing.T) {
 	t.Run("random", func(t *testing.T) {
 		rapid.Check(t, func(t *rapid.T) {
 			c := genLRUCase(t, 8) // longer than any enumerated sequence, so distinct from them
-			msg, st := checkLRUCase(c)
+			var msg string
+			var st lruStats
+			// (a sequential history takes micro- to milliseconds; one that is still running after a minute is stuck)
+			ev.Watched("C09", "random", c, 60*time.Second, func() { msg, st = checkLRUCase(c) })
 			st.classify()
 			ev.Class(fmt.Sprintf("cap=%d", c.Cap))
 			ev.Class("keys=" + c.KeyKind)
